@@ -284,6 +284,14 @@ static function_index_t add_new_function_entry () {
 
   size_t index = mem_block[A_FUNCTION_FLAGS].current_size / sizeof (function_flags_t);
 
+  if (index >= SHRT_MAX)
+    {
+      /* function numbers are kept in a 'short' (defined_name_t.function_num): reuse the last entry
+       * instead of letting the number turn negative; the compile fails with this error */
+      yyerror ("Too many functions in one program");
+      return (function_index_t)(index - 1);
+    }
+
   allocate_in_mem_block (A_RUNTIME_FUNCTIONS, sizeof (runtime_function_u));
   allocate_in_mem_block (A_FUNCTION_FLAGS, sizeof (function_flags_t));
   allocate_in_mem_block (A_FUNCTION_DEFS, sizeof (compiler_temp_t)); /* compile-time structure*/
@@ -1060,6 +1068,12 @@ int define_variable (char *name, int type, int hide) {
   ident_hash_elem_t *ihe;
 
   n = (int)(mem_block[A_VAR_TEMP].current_size / sizeof (variable_t));
+  if (n >= SHRT_MAX)
+    {
+      /* variable numbers are kept in a 'short' (defined_name_t.global_num) */
+      yyerror ("Too many global variables in one program");
+      return n - 1;
+    }
 
   ihe = find_or_add_ident (name, FOA_GLOBAL_SCOPE);
   if (ihe->dn.global_num == -1)
@@ -1232,6 +1246,14 @@ short store_prog_string (const char *string_data) {
     }
   else
     {
+      if (mem_block[A_STRINGS].current_size / sizeof (char *) >= SHRT_MAX)
+        {
+          /* string numbers are kept in a 'short' (here, in A_STRING_NEXT and in the parse nodes) */
+          yyerror ("Too many strings in one program");
+          free_string (str);
+          ((short *) mem_block[A_STRING_REFS].block)[0]++;
+          return 0;
+        }
       /* grow by one element. */
       add_to_mem_block (A_STRINGS, 0, sizeof (char *));
       add_to_mem_block (A_STRING_NEXT, 0, sizeof (short));
